@@ -210,6 +210,42 @@ def run(ctx):
                 sel = True
         ctx.ob("R7.3", "handle_extern_block_end:arm-from-normalized#%d" % (n_ + 1), sel,
                "the taken arm is selected by matching on the NormalizedResult", c.where())
+    # ---------------- R7.4 felt252 inputs of a downcast are re-centred before the range test
+    ecf = F.find1(SEM + "ConstantEvaluateContext", name="evaluate_const_function_call")
+    for fn, anchor_name, label in ((heb, "normalized", "lowering const folder"), (ecf, None, "semantic const evaluator")):
+        ctx.analysed(fn)
+        group = [fn] + F.closures_of(fn)
+        found = False
+        for g in group:
+            fd = [c for c in g.calls() if c.name() == "felt252_for_downcast"]
+            if not fd:
+                continue
+            for c in fd:
+                found = True
+                # the felt test: `ty == self.felt252`
+                felt_true = []
+                for bb, t in g.switches():
+                    info, flip = bool_condition(g, bb)
+                    if info and info[0] == "call" and info[1].name() in ("eq", "ne"):
+                        toks = set()
+                        for a in info[1].args:
+                            toks |= op_prov(g, a, 6)
+                        if "f:felt252" in toks and g.dominates(bb, c.bb):
+                            want = info[1].name() == "eq"
+                            felt_true = [(bb, s) for s in g.succ(bb) if (bool_edge_value(g, bb, s) ^ flip) == want]
+                # where the value meets the range: normalized(..) or a comparison with the range bounds
+                if anchor_name:
+                    anchors = [x.bb for x in g.calls() if x.name() == anchor_name and g.dominates(c.bb, x.bb) or
+                               (x.name() == anchor_name and x.bb in g.reachable_blocks(c.bb))]
+                else:
+                    anchors = [x.bb for x in g.calls() if x.name() in ("ge", "le", "lt", "gt") and x.bb in g.reachable_blocks(c.bb) and
+                               any(tk in ("f:min", "f:max") for a in x.args for tk in op_prov(g, a, 6))]
+                ok = bool(felt_true) and bool(anchors) and all(g.must_pass(s, anchors, {c.bb}) for _, s in felt_true)
+                ctx.ob("R7.4", "%s:felt-input-recentred" % fn.name, ok,
+                       "%s: on the `input type == felt252` edge every path to the range test passes felt252_for_downcast "
+                       "(felt tests %d, range anchors %d)" % (label, len(felt_true), len(anchors)), c.where())
+        if not found:
+            ctx.ob("R7.4", "%s:felt-input-recentred" % fn.name, False, "%s: felt252_for_downcast is no longer applied" % label, fn.where())
     for k in sorted(set(exc) - used):
         ctx.ob("R7.x", "stale:" + k, False, "exception row no longer matches", TABLE)
     _controls(ctx, F, efc)
